@@ -42,7 +42,7 @@ def ball_query(ctx, rule, qn, p, q, size_term, tag):
 
 
 def check(ctx):
-    K.roles_rule(ctx, "R2", [RW, EW], with_return=True, skip_kinds=("arith",))
+    K.roles_rule(ctx, "R2", [RW, EW], with_return=True, skip_kinds=("arith",), require={RW: [{"tree-query"}, {"region-arg"}], EW: [{"tree-query"}]})
     want_wr = [p for p in spec.paths("coords.window_region") if p.exit == "return"][0].value
     n = 0
     for p in ctx.paths(RW):
